@@ -562,6 +562,14 @@ def run_cases(cases, ctx):
             evaluations += b - a
             if d is not None:
                 disagreements.append({'case': c, 'summary': describe(c, o), 'difference': d})
+    # ---- a shard of the correspondence evaluated inside Coq (vm_compute on the model itself: cross-checks
+    #      the extraction and the OCaml glue)
+    if ctx.get('model_exe') and ctx.get('tier') in ('quick', 'thorough'):
+        d = coq_shard(cases, obs, 150 if ctx['tier'] == 'quick' else 600, ctx['seed'])
+        if d is not None:
+            disagreements.append({'case': None, 'summary': {'kind': 'in-coq-shard'}, 'difference': d})
+        else:
+            bump('in-coq-shard:ok')
     for c, o in zip(cases, obs):
         if c['kind'] in ('runs', 'runs-random'):
             bump('pipeline-calls:' + c['kind'], len(o['rows']))
@@ -638,6 +646,50 @@ def run_cases(cases, ctx):
             'disagreements': disagreements, 'violations': violations, 'histogram': hist,
             'impl_seconds': round(t_impl, 2),
             'exhaustive': any(c['kind'] == 'runs' for c in cases)}
+
+
+def coq_shard(cases, obs, n, seed):
+    """write ocaml/build/C10_cases.v: `fmt_run cfg run = <what the implementation returned>` for a sample of
+    the pipeline calls (half from real luafmt runs, half from the isolated calls), proved by vm_compute.
+    -> None | description of the failure"""
+    import subprocess
+    rng = random.Random(seed + 11)
+    real, iso = [], []
+    for c, o in zip(cases, obs):
+        if c['kind'] == 'prog':
+            for (a, e, w, d, run, res) in sorted(o['calls']):
+                if len(run) <= 200:
+                    real.append((a, e, w, d, bytes(run), bytes(res)))
+        elif c['kind'] == 'runs-random' or (c['kind'] == 'runs' and c['len'] >= 4):
+            for r, x in o['rows']:
+                f = r.split(' ')
+                if f[0] == 'fmt':
+                    iso.append((f[1] == '1', f[2] == '1', int(f[3]), int(f[4]), lib.unhx(f[5]), lib.unhx(x)))
+    rows = (rng.sample(real, min(len(real), n // 2)) if real else []) + (rng.sample(iso, min(len(iso), n - n // 2)) if iso else [])
+    if not rows:
+        return None
+
+    def zl(b):
+        return '[' + '; '.join(str(x) for x in b) + ']'
+    body = ';\n  '.join('(%s, %s, %d, %d, %s, %s)' % ('true' if a else 'false', 'true' if e else 'false', w, d, zl(run), zl(res))
+                         for (a, e, w, d, run, res) in rows)
+    text = ('(* written by harness/props/c10.py; not committed *)\n'
+            'From PV Require Import Base.Prelude Model.FmtSpaces.\n'
+            'Definition c10_cases : list (bool * bool * Z * Z * list Z * list Z) :=\n  [%s].\n'
+            'Lemma c10_cases_agree : forallb (fun \'(a, e, w, d, r, x) => zlist_eqb (fmt_run (mk_fcfg a e w d) r) x) c10_cases = true.\n'
+            'Proof. vm_compute. reflexivity. Qed.\n' % body)
+    path = os.path.join(lib.BUILD, 'C10_cases.v')
+    with open(path, 'w') as fh:
+        fh.write(text)
+    try:
+        p = subprocess.run(['timeout', '600', 'coqc', '-Q', 'theories', 'PV', '-w', 'none', path], cwd=lib.ROCQ,
+                           capture_output=True, text=True, timeout=660)
+    except subprocess.TimeoutExpired:
+        return 'in-Coq shard timed out'
+    if p.returncode != 0:
+        return 'in-Coq evaluation (vm_compute) of fmt_run disagrees with the implementation on a sample of %d calls: %s' % (
+            len(rows), (p.stdout + p.stderr)[-400:])
+    return None
 
 
 def search(ctx, budget):
